@@ -15,7 +15,8 @@ Sub-properties
   ms5         read_ms5_xsf: selected correlator, real and imaginary part, per timeslice
   sfcf        read_sfcf on the separate, compact and appended layout
   sfcf_multi  read_sfcf_multi (several names / offsets / wave functions at once, nested and keyed output)
-  hadrons     read_meson_hd5 / read_hd5 on Hadrons hdf5 meson files
+  hadrons     read_meson_hd5 / read_hd5 on Hadrons hdf5 meson files (regular, irregular and irregular range-like file sets and
+              idl selections)
 """
 import math
 import os
@@ -30,10 +31,16 @@ from vlib.formats import common, openqcd_rwms as RW, openqcd_flow as FL, ms5_xsf
 PROPERTY = 'C17'
 LEVEL = 'exploration'
 RULE = ('Hypothesis-generated file sets (1-3 replicas with replica numbers of differing digit counts, 5-40 configurations '
-        'each, first configuration 0..1005, spacing 1..10 or irregular lists where the format carries explicit numbers, '
+        'each, first configuration 0..1005, spacing 1..10 or irregular lists where the format carries explicit numbers '
+        '(ms5_xsf, sfcf, hadrons: 2/5 regular, 2/5 irregular, 1/5 irregular but "range-like" = first element, first spacing, last '
+        'element and length of a range with 1-3 interior elements off the grid; labels disk:<shape>), '
         '1-3 factors / sources / flow times / timeslices / correlators) written to a scratch directory together with '
         'files that must be ignored, and read with generated r_start / r_stop / r_step / idl / files / names / replica '
-        'selections under a sorted, reversed or randomly permuted directory listing. Non-trivial: (at least two replicas '
+        'selections under a sorted, reversed or randomly permuted directory listing. Explicit-list selections (idl= of ms5_xsf '
+        'and hadrons, files= of sfcf) are random subsets or, 1 in 3 when the list on disk has >= 9 entries, subsets whose positions '
+        'are range-like (on a regular file set the selected numbers are then an irregular range-like list; labels '
+        'selected:<shape>); hadrons: an irregular file set is read with idl = all files, a subset, or (1 in 8) without idl, where a '
+        'refusal is accepted and anything returned must be the stored data. Non-trivial: (at least two replicas '
         'of different length, or for the single-replica hadrons reader at least 6 configurations) and (a selection or a '
         'non-sorted listing); distinct = distinct spec hash.')
 ASSUMPTIONS = ['the formats are what the readers and the sample files of tests/data agree on (writers reproduce every sample byte for byte)',
@@ -85,17 +92,76 @@ def regular_reps(draw, nmax, mult=1, max_reps=3):
 
 @st.composite
 def cfg_list(draw, nmax):
-    """Strictly increasing list of explicit configuration numbers: regular or irregular."""
+    """Strictly increasing list of explicit configuration numbers: regular, irregular, or irregular but 'range-like'
+    (first element, first spacing, last element and length of a range; some interior elements off the grid)."""
     n = draw(nconf(nmax))
     first = draw(FIRST)
-    if draw(st.booleans()):
+    kind = draw(st.sampled_from(['regular', 'regular', 'irregular', 'irregular', 'rangelike']))
+    if kind == 'regular':
         sp = draw(st.sampled_from([1, 1, 2, 3, 5, 10]))
         return [first + sp * i for i in range(n)]
+    if kind == 'rangelike':
+        sp = draw(st.sampled_from([2, 2, 3, 5, 10]))
+        return move_interior([first + sp * i for i in range(n)], draw(interior_moves(n, sp)))
     inc = draw(st.lists(st.sampled_from([1, 1, 1, 2, 3, 7]), min_size=n - 1, max_size=n - 1))
     out = [first]
     for i in inc:
         out.append(out[-1] + i)
     return out
+
+
+def interior_moves(n, sp):
+    """1-3 moves (position, shift) of interior elements (positions 2 .. n-2: the first two and the last element stay) of a
+    list of n >= 5 elements with spacing sp >= 2, |shift| < sp."""
+    return st.lists(st.tuples(st.integers(2, n - 2), st.integers(1, sp - 1), st.sampled_from([-1, 1])), min_size=1, max_size=3)
+
+
+def move_interior(xs, moves):
+    """Applies the moves one after the other; a move that would destroy the strict order is left out (the first one never does:
+    the neighbours are sp away and |shift| < sp).  The result agrees with the range in first element, first spacing, last
+    element and length and differs from it in at least one interior element."""
+    out = list(xs)
+    for i, d, sg in moves:
+        v = out[i] + sg * d
+        if out[i - 1] < v < out[i + 1]:
+            out[i] = v
+    return out
+
+
+@st.composite
+def rangelike_subset(draw, cf):
+    """A subset (>= 5 elements) of the sorted list cf whose *positions* in cf are range-like: every m-th position with some
+    interior positions moved.  On a regular cf the selected configuration numbers are range-like.  None if cf is too short."""
+    if len(cf) < 9:
+        return None
+    m = draw(st.integers(2, min(4, (len(cf) - 1) // 4)))
+    k = draw(st.integers(5, (len(cf) - 1) // m + 1))
+    a = draw(st.integers(0, len(cf) - 1 - m * (k - 1)))
+    pos = move_interior([a + m * i for i in range(k)], draw(interior_moves(k, m)))
+    return [cf[i] for i in pos]
+
+
+def subset_of(cf, ordered=True):
+    """Selection of >= 5 of the configurations cf (sorted): random subset (in arbitrary order unless `ordered`), or (1 in 3, if cf
+    is long enough) a range-like one."""
+    @st.composite
+    def f(draw):
+        if len(cf) >= 9 and draw(st.integers(0, 2)) == 0:
+            return draw(rangelike_subset(cf))
+        sub = list(draw(st.lists(st.sampled_from(cf), min_size=5, max_size=len(cf), unique=True)))
+        return sorted(sub) if ordered else sub
+    return f()
+
+
+def shape_of(cfgs):
+    """'contig' | 'strided' | 'irregular' | 'irregular_rangelike' (same first element, first spacing, last element and length
+    as a range, irregular inside)"""
+    from vlib.gen import classify_idl
+    return classify_idl(sorted(cfgs))
+
+
+def shape_labels(what, lists):
+    return sorted(set('%s:%s' % (what, shape_of(l)) for l in lists if len(l) >= 2))
 
 
 @st.composite
@@ -567,7 +633,7 @@ def ms5_case(draw, tier):
         idl = []
         for i in order:
             cf = fs['reps'][i]['cfgs']
-            keep = draw(st.lists(st.sampled_from(cf), min_size=5, max_size=len(cf), unique=True))
+            keep = draw(subset_of(cf))
             absent = draw(st.lists(st.integers(0, 1100), max_size=2))
             idl.append(sorted(set(keep) | set(a for a in absent if a not in cf)))
         call['idl'] = idl
@@ -589,6 +655,9 @@ def ms5_oracle(spec):
     labs += digit_labels([c for r in fs['reps'] for c in r['cfgs']], 'cfg')
     if any(len(set(np.diff(r['cfgs']))) > 1 for r in fs['reps']):
         labs.append('irregular_cfgs')
+    labs += shape_labels('disk', [r['cfgs'] for r in fs['reps']])
+    if call.get('idl') is not None:
+        labs += shape_labels('selected', [sorted(set(l) & set(fs['reps'][i]['cfgs'])) for l, i in zip(call['idl'], order)])
     return {'nt': nt, 'cls': labs}
 
 
@@ -657,10 +726,10 @@ def sfcf_selection(draw, fs, multi_names=None):
         per = []
         for i in order:
             cf = fs['reps'][i]['cfgs']
-            per.append(list(draw(st.lists(st.sampled_from(cf), min_size=5, max_size=len(cf), unique=True))))
+            per.append(draw(subset_of(cf, ordered=False)))
         inter = sorted(set.intersection(*[set(fs['reps'][i]['cfgs']) for i in order]))
         if fs['layout'] == 'o' and len(inter) >= 5 and draw(st.booleans()):
-            call['files'] = {'kind': 'flat', 'cfgs': list(draw(st.lists(st.sampled_from(inter), min_size=5, max_size=len(inter), unique=True)))}
+            call['files'] = {'kind': 'flat', 'cfgs': draw(subset_of(inter, ordered=False))}
         else:
             call['files'] = {'kind': 'per', 'cfgs': per}
     if draw(st.booleans()):
@@ -690,8 +759,10 @@ def sfcf_labels(fs, call, spec):
     labs += digit_labels([c for r in fs['reps'] for c in r['cfgs']], 'cfg')
     if any(len(set(np.diff(r['cfgs']))) > 1 for r in fs['reps']):
         labs.append('irregular_cfgs')
+    labs += shape_labels('disk', [r['cfgs'] for r in fs['reps']])
     if call.get('files'):
         labs.append('files:' + call['files']['kind'])
+        labs += shape_labels('selected', [SF.selected_cfgs(fs, call, pos, fs['reps'][i]) for pos, i in enumerate(order)])
     return nt, labs
 
 
@@ -774,12 +845,16 @@ def hadrons_case(draw, tier):
     if call['how'] in ('attrs', 'int'):
         call['part'] = draw(st.sampled_from(['real', 'imag', 'complex']))
     regular = len(set(np.diff(fs['cfgs']))) == 1
-    if not regular or draw(st.booleans()):
+    if not regular and draw(st.integers(0, 7)) == 0:
+        # irregular file set, no idl: the reader documents no result for it (it refuses); whatever it returns must be the stored
+        # numbers at the stored configurations
+        call['may_refuse'] = True
+    elif not regular or draw(st.booleans()):
         cf = fs['cfgs']
         if not regular and draw(st.booleans()):
             call['idl'] = list(cf)
         else:
-            call['idl'] = sorted(draw(st.lists(st.sampled_from(cf), min_size=5, max_size=len(cf), unique=True)))
+            call['idl'] = draw(subset_of(cf))
         call['idl_form'] = draw(st.sampled_from(['list', 'range']))
     if draw(st.integers(0, 5)) == 0:
         # a selection that names configurations for which no file exists cannot be served: the reader has to refuse it
@@ -791,6 +866,7 @@ def hadrons_case(draw, tier):
             call['idl'] = sorted(set(cf) | set(extra))
             call['idl_form'] = 'list' if len(set(np.diff(call['idl']))) > 1 else draw(st.sampled_from(['list', 'range']))
             call['missing'] = extra
+            call.pop('may_refuse', None)
     return {'fs': fs, 'call': call, 'excluded': []}
 
 
@@ -804,14 +880,26 @@ def hadrons_oracle(spec):
             except Exception as e:
                 return {'nt': True, 'cls': ['sel:idl_with_missing_configurations:' + type(e).__name__]}
         raise Violation('hadrons reader served a selection that names configurations %r for which no file exists' % (call['missing'],))
+    labs = ['how:' + call['how'], 'part:' + call.get('part', 'real'), 'T:%d' % fs['T'],
+            'listing:' + (call['listing'] if isinstance(call['listing'], str) else 'shuffle')]
+    labs += shape_labels('disk', [fs['cfgs']])
+    if call.get('idl') is not None:
+        labs += shape_labels('selected', [call['idl']])
     with common.tempdir() as d:
         prime(HD, d, fs, call, HD.run, spec)
         HD.build(fs).write(d)
-        got = HD.run(d, fs, call)
+        if call.get('may_refuse'):
+            try:
+                got = HD.run(d, fs, call)
+            except Violation:
+                raise
+            except Exception as e:
+                return {'nt': len(fs['cfgs']) >= 6, 'cls': labs + ['sel:none_on_irregular_files:refused:' + type(e).__name__]}
+            labs.append('sel:none_on_irregular_files:served')
+        else:
+            got = HD.run(d, fs, call)
     exp = HD.expected(fs, call)
     compare_all(got, exp, rtol=1e-15, what='hadrons ')
-    labs = ['how:' + call['how'], 'part:' + call.get('part', 'real'), 'T:%d' % fs['T'],
-            'listing:' + (call['listing'] if isinstance(call['listing'], str) else 'shuffle')]
     labs += digit_labels(fs['cfgs'], 'cfg')
     sel = call.get('idl') is not None and len(call['idl']) < len(fs['cfgs'])
     if call.get('idl') is not None:
